@@ -62,6 +62,11 @@ func genC16(t *rapid.T) C16Case {
 		}
 	}
 	c.Value = ref.S(b.String())
+	if (c.Dir == "escapeUri" || c.Dir == "escapeJsString") && rapid.IntRange(0, 5).Draw(t, "scalar") == 0 {
+		// the directives take any printable value: numbers print with signs, dots and exponents
+		c.Value = rapid.SampledFrom([]ref.Value{ref.I(0), ref.I(-7), ref.I(1 << 40), ref.F(1e21), ref.F(-6.02e23), ref.F(1.5e300), ref.F(1e-7), ref.F(2.5), ref.F(-0.5),
+			ref.F(3.4028234663852886e38), ref.B(true), ref.B(false), ref.N()}).Draw(t, "scalarValue")
+	}
 	if c.Dir == "json" && rapid.IntRange(0, 2).Draw(t, "structured") > 0 {
 		g := &gen.G{T: t, P: gen.Profile{Unicode: true, HTMLChars: true}}
 		c.Value = g.AnyValue(3)
